@@ -57,7 +57,7 @@ func loadProgram(repo string) (*Program, error) {
 	if len(errs) > 0 {
 		return nil, fmt.Errorf("load errors: %s", strings.Join(errs, "; "))
 	}
-	prog, _ := ssautil.AllPackages(pkgs, ssa.InstantiateGenerics)
+	prog, _ := ssautil.AllPackages(pkgs, ssa.InstantiateGenerics|ssa.GlobalDebug)
 	prog.Build()
 	P := &Program{RepoDir: repo, Pkgs: pkgs, Prog: prog, SSAPkgs: map[string]*ssa.Package{},
 		ByPath: map[string]*packages.Package{}, Funcs: map[string][]*ssa.Function{}, Contracts: map[string]*Contract{}, Macros: map[string]*Macro{}}
